@@ -32,7 +32,7 @@ def instances(shapes):
 def native_replay(rp, workroot):
     import re
     from engine.core import replay_bin
-    m = re.match(r"c18_(reuse|truncate|trunc_rewrite)_h(\d)_(\d+)_(\d+)_s(\d+)_([tf])", rp["harness"])
+    m = re.match(r"c18_(reuse|truncate|trunc_rewrite|replace)_h(\d)_(\d+)_(\d+)_s(\d+)_([tf])", rp["harness"])
     if not m:
         return None, "no native reproducer for this scenario (solver counterexample only)"
     sc, H, a, b, s, q = m.groups()
@@ -56,6 +56,11 @@ def spec(tier, seed):
     hs = []
     quick = instances(SHAPES_QUICK)
     more = instances(SHAPES_MORE)
+    # the shape whose second record head ends exactly at the (scaled) read-ahead window boundary matters for cache
+    # maintenance in replace_header: keep that one scenario in the quick tier
+    straddle = [x for x in more if x[0] == "c18_replace_h1_12_9_s3_t"]
+    more = [x for x in more if x[0] != "c18_replace_h1_12_9_s3_t"]
+    quick = quick + straddle
     for name, _, obl in quick:
         # iteration over three records is the heaviest scenario: thorough tier only
         hs.append(Harness(name, obligation=obl, encodes=ENC, bounds=B, timeout_s=600 if "_iterate_" not in name else 2400,
